@@ -120,6 +120,7 @@ TASK_T = 'variant * N * N * list tevent * list op'
 TASK_FN = ('fun c : variant * N * N * list tevent * list op => let \'(v, mn, mx, evs, ops) := c in '
            '(match trun v (tinit mn mx) evs with None => "PANIC" | Some (_, o) => '
            'show_list (fun x => x) "," (flat_map (fun x => match x with OAnnounce AfterFailedConnect d => ["F" ++ show_N d] | OAnnounce AfterDisconnect d => ["D" ++ show_N d] | _ => [] end) o) end) '
+           '++ "|" ++ (match trun v (tinit mn mx) evs with None => "PANIC" | Some (_, o) => show_list show_N "," (armed o) end) '
            '++ "|" ++ show_list show_N "," (somes (spec mn mx 0 ops))')
 MS = 10**6
 
@@ -129,14 +130,15 @@ def task_cases(ctx, n):
     certs = os.path.join(vlib.REPO, 'certs', 'ca_chain')
     cases = [('tcp', 20, 70, 'rrrrcsr'), ('tcp', 20, 70, 'crcr'), (f'tls:{certs}', 20, 70, 'rcrcr'), ('tcp', 10, 10, 'rrs'), ('tcp', 20, 70, 's'),
              ('tcp', 20, 70, 'rrrrrr'), (f'tls:{certs}', 15, 100, 'cccc'), ('tcp', 5, 40, 'rrrrsrrrr'),
-             ('rtu', 20, 70, 'rrror'), ('rtu', 20, 70, 'oro'), ('rtu', 10, 40, 'rrrrr'), ('rtu', 20, 70, 'o')]
+             ('rtu', 20, 70, 'rrror'), ('rtu', 20, 70, 'oro'), ('rtu', 10, 40, 'rrrrr'), ('rtu', 20, 70, 'o'),
+             ('rtuserver', 20, 70, 'rrror'), ('rtuserver', 20, 70, 'oro'), ('rtuserver', 10, 40, 'rrrrr'), ('rtuserver', 20, 70, 'o')]
     while len(cases) < n:
         w = r.random()
         tls = w < 0.25
         mn, mx = r.choice([(20, 70), (10, 10), (15, 100), (5, 40), (30, 30), (8, 64), (25, 60)])
         ln = r.choice([2, 3, 4, 5, 6, 7, 8])
-        if w > 0.75:
-            cases.append(('rtu', mn, mx, ''.join(r.choices('ro', weights=(5, 2), k=ln))))
+        if w > 0.7:
+            cases.append(('rtu' if w > 0.85 else 'rtuserver', mn, mx, ''.join(r.choices('ro', weights=(5, 2), k=ln))))
             continue
         script = ''.join(r.choices('rc' if tls else 'rcs', weights=(5, 2) if tls else (5, 1, 2), k=ln))
         cases.append((f'tls:{certs}' if tls else 'tcp', mn, mx, script))
@@ -154,19 +156,37 @@ def task_to_coq(c):
         else:
             evs += ['AttemptOk', 'Lost', 'Elapsed']  # connected, then lost
             ops += ['Reset', 'Disc']
-    model_variant = 'SerialClient' if variant == 'rtu' else 'TcpClient'
+    model_variant = {'rtu': 'SerialClient', 'rtuserver': 'RtuServer'}.get(variant, 'TcpClient')
     return f'({model_variant}, {mn * MS}, {mx * MS}, [{";".join(evs)}], [{";".join(ops)}])'
 
 
+def actual_case(c, i):
+    """the RTU server has no listener to hold it while the next outcome is prepared: what is judged is the
+    sequence of outcomes that actually occurred (F = the open failed, D = the port opened and was lost)"""
+    if c[0] != 'rtuserver':
+        return c
+    fields = [f for f in i.split(',') if f and f[0] in 'FD']
+    return (c[0], c[1], c[2], ''.join('r' if f[0] == 'F' else 'o' for f in fields))
+
+
 def task_eval(ctx, cases):
-    impl = ctx.harness('retrytask', [f'{v} {mn} {mx} {sc}' for v, mn, mx, sc in cases], shards=4, timeout=600)
-    both = ctx.coq_eval(TASK_REQ, TASK_FN, [task_to_coq(c) for c in cases], case_type=TASK_T, preamble='Local Open Scope string_scope.', per_shard=40)
+    cases = list(cases)
+    impl = [None] * len(cases)
+    # the RTU server scenarios run in a process of their own (a tracing subscriber records its log)
+    for sel, shards in ((lambda c: c[0] != 'rtuserver', 4), (lambda c: c[0] == 'rtuserver', 2)):
+        ix = [k for k, c in enumerate(cases) if sel(c)]
+        if ix:
+            res = ctx.harness('retrytask', [f'{v} {mn} {mx} {sc}' for v, mn, mx, sc in (cases[k] for k in ix)], shards=shards, timeout=600)
+            for k, r in zip(ix, res):
+                impl[k] = r
+    both = ctx.coq_eval(TASK_REQ, TASK_FN, [task_to_coq(actual_case(c, i)) for c, i in zip(cases, impl)], case_type=TASK_T,
+                        preamble='Local Open Scope string_scope.', per_shard=40)
     return impl, both
 
 
 def task_judge(i, b):
     """None, or (key, description)"""
-    model, spec = b.split('|')
+    model, armed, spec = b.split('|')
     fields = [f for f in i.split(',') if f]
     if any(not f or f[0] not in 'FD' or f[-1] not in '+-?' for f in fields):
         return ('task.unusable-result', f'harness result {i}')
@@ -174,10 +194,10 @@ def task_judge(i, b):
     kinds = ','.join(f[:-1] for f in fields)
     if values != spec:
         return ('task.announced-delays-differ-from-spec', f'announced {kinds} but the Spec gives {spec}')
-    if kinds != model:
-        return ('task.model-differs-from-impl', f'announced {kinds} but the model gives {model}')
+    if values != armed or (model and kinds != model):
+        return ('task.model-differs-from-impl', f'announced {kinds} but the model gives {model or armed}')
     if any(f[-1] == '-' for f in fields):
-        return ('task.next-attempt-earlier-than-announced', f'{i}: a Connecting was announced earlier than the announced delay after the wait announcement')
+        return ('task.next-attempt-earlier-than-announced', f'{i}: the next connect/open attempt was announced earlier than the announced delay after the wait announcement')
     if any(f[-1] == '?' for f in fields):
         return ('task.no-next-attempt', f'{i}: no Connecting followed an announced wait')
     return None
@@ -215,25 +235,26 @@ def run_task_level(ctx):
         js = task_judge(im[0], bo[0])
         if not js or js[0] != key:
             small, im, bo, js = c, [i], [b], j
-        ctx.violation(key, f'{small[0].split(":")[0]} client task, retry {small[1]}..{small[2]} ms, connect outcomes "{small[3]}" (r=refused/no device c=accepted+closed s=served o=port opened then lost): {js[1]}',
+        ctx.violation(key, f'{"RTU server" if small[0] == "rtuserver" else small[0].split(":")[0] + " client"} task, retry {small[1]}..{small[2]} ms, connect outcomes "{small[3]}" (r=refused/no device c=accepted+closed s=served o=port opened then lost): {js[1]}',
                       {'task_cases': [list(small)], 'impl': im[0], 'model|spec': bo[0], 'original_case': list(c)},
                       no_failing_input=(key == 'task.model-differs-from-impl'))
     ctx.oblige('correspondence:task-level-delays', bad == 0, f'{bad} of {len(cases)} scenarios differ')
-    tcls = {'tcp': 0, 'tls': 0, 'rtu': 0, 'with_port_opened': 0, 'with_served': 0, 'with_accept_close': 0, 'three_refused_in_a_row': 0, 'capped': 0, 'announcements': 0}
+    tcls = {'tcp': 0, 'tls': 0, 'rtu': 0, 'rtuserver': 0, 'rtuserver_followed_script': 0, 'with_port_opened': 0, 'with_served': 0, 'with_accept_close': 0, 'three_refused_in_a_row': 0, 'capped': 0, 'announcements': 0}
     for c, i in zip(cases, impl):
         tcls['tls' if c[0].startswith('tls') else c[0]] += 1
         tcls['with_port_opened'] += 'o' in c[3]
+        tcls['rtuserver_followed_script'] += c[0] == 'rtuserver' and actual_case(c, i)[3] == c[3]
         tcls['with_served'] += 's' in c[3]
         tcls['with_accept_close'] += 'c' in c[3]
         tcls['three_refused_in_a_row'] += 'rrr' in c[3]
         tcls['capped'] += f'F{c[2] * MS}' in i
         tcls['announcements'] += len([f for f in i.split(',') if f])
     if not ctx.replay:
-        ctx.oblige('task-generator-reaches-expected-classes', all(tcls[k] >= 3 for k in ('tcp', 'tls', 'rtu', 'with_port_opened', 'with_served', 'with_accept_close', 'three_refused_in_a_row', 'capped')), str(tcls))
+        ctx.oblige('task-generator-reaches-expected-classes', all(tcls[k] >= 3 for k in ('tcp', 'tls', 'rtu', 'rtuserver', 'rtuserver_followed_script', 'with_port_opened', 'with_served', 'with_accept_close', 'three_refused_in_a_row', 'capped')), str(tcls))
     ctx.coverage['task_level'] = {
         'scenarios': len(cases),
         'distinct_nontrivial': len(set(c for c in cases if len(c[3]) >= 2)),
-        'rule': 'scenario = (tcp|tls|rtu client task, min ms, max ms, one connect outcome per attempt: r refused / device missing, c accepted then closed (tls: failed handshake), s served one request then closed, o pty opened then its master closed); seeded PRNG after a fixed list; non-trivial = at least two attempts',
+        'rule': 'scenario = (tcp|tls|rtu client task or rtuserver = RTU server task (delays read from its log, judged on the outcome sequence that actually occurred), min ms, max ms, one connect outcome per attempt: r refused / device missing, c accepted then closed (tls: failed handshake), s served one request then closed, o pty opened then its master closed); seeded PRNG after a fixed list; non-trivial = at least two attempts',
         'input_classes': tcls,
         'samples': [list(c[:1]) + list(c[1:]) + [i] for c, i in list(zip(cases, impl))[:4]],
     }
